@@ -165,6 +165,25 @@ fn payload_paths_collect(rep: &mut Report) {
             }
         }
     }
+    {
+        // a success value that is zero-sized but still has a destructor, through both spellings of the encoder
+        for form in 0..2 {
+            let (n0, d0) = vmon::TrackedZst::counts();
+            let mut slot: MaybeUninit<vmon::TrackedZst> = MaybeUninit::uninit();
+            let r: Result<vmon::TrackedZst, ()> = Ok(vmon::TrackedZst::new());
+            let code = if form == 0 { r.into_int_out_result(&mut slot) } else { into_int_out_result(r, &mut slot) };
+            let (n1, d1) = vmon::TrackedZst::counts();
+            chk!(code == 0, "C13:ok-nonzero", &format!("Ok(zero-sized) encoded as {}", code));
+            chk!(n1 - n0 == 1 && d1 == d0, "C13:ok-value-not-moved-once", &format!("zero-sized success value: {} destroyed by the encoder (form {})", d1 - d0, form));
+            if code == 0 {
+                let back: Result<vmon::TrackedZst, ()> = unsafe { from_int_result(code, slot) };
+                chk!(back.is_ok(), "C13:ok-decoded-as-err", "code 0 decoded to Err");
+                drop(back);
+                let (n2, d2) = vmon::TrackedZst::counts();
+                chk!(n2 - n0 == 1 && d2 - d0 == 1, "C13:ok-value-not-moved-once", &format!("zero-sized success value: created {} destroyed {} over encode+decode (form {})", n2 - n0, d2 - d0, form));
+            }
+        }
+    }
     for e in 0..3 {
         let sentinel = Tracked::new();
         let sid = sentinel.id;
